@@ -900,6 +900,8 @@ func authCase(run *hx.Run, r *hx.RNG, exhaustive *[]policy) {
 	vs = append(vs, checkPrefixQueries(names, cd)...)
 	if ei := r.Intn(len(names)); true {
 		vs = append(vs, checkEnforce(cz, names[ei], cd.named[ei], cd.nameless)...)
+		vs = append(vs, checkAllowAuthorizer(cz, names[ei])...)
+		vs = append(vs, checkAllowAuthorizer(pz, names[ei])...)
 	}
 	// order independence: every rotation / a shuffle of the policy list, and the rules inside a policy reversed
 	mixed := false
@@ -1106,6 +1108,10 @@ type backend struct {
 	tokens   map[string]*structs.ACLToken
 	policies map[string]*structs.ACLPolicy
 	roles    map[string]*structs.ACLRole
+	// cloneOut: every RPC reply carries deep copies (what a decoded reply is); the copies are remembered
+	// in handed, so that a later mutation of an object sitting in one of the resolver's caches is seen
+	cloneOut bool
+	handed   []handedObj
 }
 
 func (b *backend) ACLDatacenter() string { return b.dc }
@@ -1146,14 +1152,14 @@ func (b *backend) RPC(_ context.Context, method string, args interface{}, reply 
 		req, out := args.(*structs.ACLTokenGetRequest), reply.(*structs.ACLTokenResponse)
 		out.SourceDatacenter = b.dc
 		if t, ok := b.tokens[req.TokenID]; ok {
-			out.Token = t
+			out.Token = b.outToken(t)
 		}
 		return nil
 	case "ACL.PolicyResolve":
 		req, out := args.(*structs.ACLPolicyBatchGetRequest), reply.(*structs.ACLPolicyBatchResponse)
 		for _, id := range req.PolicyIDs {
 			if p, ok := b.policies[id]; ok {
-				out.Policies = append(out.Policies, p)
+				out.Policies = append(out.Policies, b.outPolicy(p))
 			}
 		}
 		return nil
@@ -1161,7 +1167,7 @@ func (b *backend) RPC(_ context.Context, method string, args interface{}, reply 
 		req, out := args.(*structs.ACLRoleBatchGetRequest), reply.(*structs.ACLRoleBatchResponse)
 		for _, id := range req.RoleIDs {
 			if p, ok := b.roles[id]; ok {
-				out.Roles = append(out.Roles, p)
+				out.Roles = append(out.Roles, b.outRole(p))
 			}
 		}
 		return nil
@@ -1199,7 +1205,7 @@ var polIDs = []string{
 	"11111111-0000-0000-0000-00000000000a", "a1111111-0000-0000-0000-000000000001",
 	"0a111111-0000-0000-0000-000000000001",
 }
-var roleIDs = []string{"22222222-0000-0000-0000-000000000001", "22222222-0000-0000-0000-000000000002"}
+var roleIDs = []string{"22222222-0000-0000-0000-000000000001", "22222222-0000-0000-0000-000000000002", "22222222-0000-0000-0000-00000000000a"}
 var secrets = []string{"5ec00000-0000-0000-0000-000000000001", "5ec00000-0000-0000-0000-000000000002",
 	"5ec00000-0000-0000-0000-000000000003", "5ec00000-0000-0000-0000-000000000004", "anonymous"}
 var dcsPool = [][]string{nil, nil, nil, {"dc1"}, {"dc2"}, {"dc1", "dc2"}, {"dc2", "dc1", "dc1"}}
@@ -1224,6 +1230,9 @@ type seq struct {
 	// one of them has been created since (the history shape of the sticky negative cache entry)
 	negSeen      map[string]bool
 	negRecreated string
+	// object sharing (share.go)
+	pr           *pristine
+	narrow       bool // few identity names, every role carries identities, tokens link several roles
 }
 
 func (s *seq) line(op, out string) {
@@ -1259,7 +1268,7 @@ func (s *seq) putPolicy(id string, o genOpts) {
 	doc.ModifyIndex = s.modIdx[id]
 	doc.CreateIndex = 1
 	doc.SetHash(true)
-	s.b.policies[id] = doc
+	s.setPolicy(id, doc)
 	s.docs[id] = p
 	if s.badDoc == nil {
 		s.badDoc = map[string]bool{}
@@ -1280,8 +1289,12 @@ func (s *seq) putPolicy(id string, o genOpts) {
 func (s *seq) genSvcs() (structs.ACLServiceIdentities, string) {
 	var out structs.ACLServiceIdentities
 	var enc []string
-	for n := s.r.Intn(3); n > 0 && s.r.Chance(60); n-- {
-		id := &structs.ACLServiceIdentity{ServiceName: hx.Pick(s.r, svcNames), Datacenters: hx.Pick(s.r, dcsPool)}
+	n := s.r.Intn(3)
+	if s.narrow && n == 0 {
+		n = 1
+	}
+	for ; n > 0 && (s.narrow || s.r.Chance(60)); n-- {
+		id := &structs.ACLServiceIdentity{ServiceName: hx.Pick(s.r, s.svcPool()), Datacenters: cpStrings(hx.Pick(s.r, dcsPool))}
 		out = append(out, id)
 		t := make([]string, len(id.Datacenters))
 		for i, d := range id.Datacenters {
@@ -1315,40 +1328,54 @@ func (s *seq) putRole(id string) {
 	pids := s.pickIDs(polIDs, 2)
 	svcs, es := s.genSvcs()
 	nodes, en := s.genNodes()
-	ro := &structs.ACLRole{ID: id, Name: "r-" + id[len(id)-1:], ServiceIdentities: svcs, NodeIdentities: nodes}
+	tps, et := s.genTps(25)
+	ro := &structs.ACLRole{ID: id, Name: "r-" + id[len(id)-1:], ServiceIdentities: svcs, NodeIdentities: nodes, TemplatedPolicies: tps}
 	for _, p := range pids {
 		ro.Policies = append(ro.Policies, structs.ACLRolePolicyLink{ID: p})
 	}
-	s.b.roles[id] = ro
+	s.setRole(id, ro)
 	if s.negSeen[id] {
 		s.negRecreated = "role"
 	}
-	s.line(fmt.Sprintf("role %s %s %s %s", hx.EncS(id), hx.EncSList(pids), es, en), "ok")
+	s.line(fmt.Sprintf("role %s %s %s %s %s", hx.EncS(id), hx.EncSList(pids), es, en, et), "ok")
 }
 
 func (s *seq) putToken(secret string) {
 	pids := s.pickIDs(polIDs, 3)
-	rids := s.pickIDs(roleIDs, 1)
+	// distinct role links (ACL.TokenSet de-duplicates links), in any order
+	var rids []string
+	nr := hx.Pick(s.r, []int{0, 0, 1, 1, 1, 2, 2, 3})
+	if s.narrow {
+		nr = hx.Pick(s.r, []int{1, 1, 2, 2, 2, 3})
+		pids = s.pickIDs(polIDs, 1)
+	}
+	perm := append([]string(nil), roleIDs...)
+	hx.Shuffle(s.r, perm)
+	rids = append(rids, perm[:nr]...)
 	var svcs structs.ACLServiceIdentities
 	var nodes structs.ACLNodeIdentities
 	es, en := "-", "-"
-	if s.r.Chance(35) {
+	if s.r.Chance(35) && !(s.narrow && s.r.Chance(60)) {
 		svcs, es = s.genSvcs()
 	}
 	if s.r.Chance(25) {
 		nodes, en = s.genNodes()
 	}
-	t := &structs.ACLToken{AccessorID: "acc" + secret[3:], SecretID: secret, ServiceIdentities: svcs, NodeIdentities: nodes}
+	tps, et := s.genTps(15)
+	t := &structs.ACLToken{AccessorID: "acc" + secret[3:], SecretID: secret, ServiceIdentities: svcs, NodeIdentities: nodes, TemplatedPolicies: tps}
 	for _, p := range pids {
 		t.Policies = append(t.Policies, structs.ACLTokenPolicyLink{ID: p})
 	}
 	for _, p := range rids {
 		t.Roles = append(t.Roles, structs.ACLTokenRoleLink{ID: p})
 	}
-	s.b.tokens[secret] = t
-	s.line(fmt.Sprintf("tok %s %s %s %s %s", hx.EncS(secret), hx.EncSList(pids), hx.EncSList(rids), es, en), "ok")
+	s.setToken(secret, t)
+	s.line(fmt.Sprintf("tok %s %s %s %s %s %s", hx.EncS(secret), hx.EncSList(pids), hx.EncSList(rids), es, en, et), "ok")
+	if len(rids) > 1 {
+		s.run.Tag(s.kind + ":token:several-roles")
+	}
 	switch {
-	case len(pids)+len(rids)+len(svcs)+len(nodes) == 0:
+	case len(pids)+len(rids)+len(svcs)+len(nodes)+len(tps) == 0:
 		s.run.Tag(s.kind + ":token:no-links")
 	default:
 		if len(rids) > 0 {
@@ -1383,7 +1410,8 @@ func (s *seq) resolve(secret string) {
 	op := fmt.Sprintf("resolve %s %s", hx.EncS(secret), hx.EncSList(names))
 	s.noteMissing(secret)
 	res, err := s.res.ResolveToken(secret)
-	fresh, ferr := newResolver(s.b, s.dflt, false).ResolveToken(secret)
+	s.checkShared()
+	fresh, ferr := newResolver(s.freshBackend(), s.dflt, false).ResolveToken(secret)
 	if err != nil {
 		out := "err:other"
 		switch {
@@ -1402,7 +1430,7 @@ func (s *seq) resolve(secret string) {
 			if eff == "" {
 				eff = "anonymous"
 			}
-			if tok, found := s.b.tokens[eff]; found && !(s.b.client && s.negRecreated != "") {
+			if tok, found := s.pr.tokens[eff]; found && !(s.b.client && s.negRecreated != "") {
 				if _, wok := s.expectedPolicies(tok); wok {
 					s.violate("semantics:resolve:valid-policies-rejected", "all policies in scope validate, yet the token failed to compile: "+err.Error())
 				}
@@ -1422,7 +1450,7 @@ func (s *seq) resolve(secret string) {
 		effective = "anonymous"
 	}
 	stale := s.b.client && s.negRecreated != "" // known history shape, reported below with its own signature
-	if tok, found := s.b.tokens[effective]; found && !stale {
+	if tok, found := s.pr.tokens[effective]; found && !stale {
 		want, wok := s.expectedPolicies(tok)
 		s.run.Tag(fmt.Sprintf("%s:resolve:own-policies:%d", s.kind, len(want)))
 		if !wok {
@@ -1449,6 +1477,12 @@ func (s *seq) resolve(secret string) {
 			fmt.Sprintf("token %s through the shared caches: %s; through a fresh resolver: %s", secret, d, fd))
 	}
 	for _, v := range checkPrefixQueries(names, d) {
+		s.violate(v.sig, v.desc)
+	}
+	if tok, found := s.pr.tokens[effective]; found && !s.b.client {
+		s.checkLinkOrder(secret, effective, tok, names, d)
+	}
+	for _, v := range checkAllowAuthorizer(res.Authorizer, names[s.r.Intn(len(names))]) {
 		s.violate(v.sig, v.desc)
 	}
 }
@@ -1494,21 +1528,41 @@ func (s *seq) expectedPolicies(t *structs.ACLToken) (out []policy, ok bool) {
 			}
 		}
 	}
+	// templated policies: every link that is in scope grants its rendered template (duplicates are
+	// idempotent, so the reference does not de-duplicate at all)
+	type tpEnt struct {
+		t    tmplInfo
+		name string
+		dcs  []string
+	}
+	var tpl []tpEnt
+	addTps := func(tps structs.ACLTemplatedPolicies) {
+		for _, tp := range tps {
+			ti := tmplByName(tp.TemplateName)
+			name := ""
+			if tp.TemplateVariables != nil {
+				name = tp.TemplateVariables.Name
+			}
+			tpl = append(tpl, tpEnt{ti, name, tp.Datacenters})
+		}
+	}
 	pids = append(pids, t.PolicyIDs()...)
 	addSvc(t.ServiceIdentities)
 	addNodes(t.NodeIdentities)
+	addTps(t.TemplatedPolicies)
 	for _, rid := range t.RoleIDs() {
-		if ro, found := s.b.roles[rid]; found {
+		if ro, found := s.pr.roles[rid]; found {
 			for _, l := range ro.Policies {
 				pids = append(pids, l.ID)
 			}
 			addSvc(ro.ServiceIdentities)
 			addNodes(ro.NodeIdentities)
+			addTps(ro.TemplatedPolicies)
 		}
 	}
 	seen := map[string]bool{}
 	for _, id := range pids {
-		doc, found := s.b.policies[id]
+		doc, found := s.pr.policies[id]
 		if seen[id] || !found || !inScope(doc.Datacenters, s.dc) {
 			continue
 		}
@@ -1529,6 +1583,11 @@ func (s *seq) expectedPolicies(t *structs.ACLToken) (out []policy, ok bool) {
 			out = append(out, policy{rules: []rule{{kind: 'n', name: k.n, pol: "write"}, {kind: 's', pfx: true, name: "", pol: "read"}}})
 		}
 	}
+	for _, e := range tpl {
+		if inScope(e.dcs, s.dc) {
+			out = append(out, tmplRules(e.t, e.name))
+		}
+	}
 	return out, ok
 }
 
@@ -1537,7 +1596,7 @@ func (s *seq) noteMissing(secret string) {
 	if secret == "" {
 		secret = "anonymous"
 	}
-	t, ok := s.b.tokens[secret]
+	t, ok := s.pr.tokens[secret]
 	if !ok || !s.b.client {
 		return
 	}
@@ -1546,7 +1605,7 @@ func (s *seq) noteMissing(secret string) {
 	}
 	pids := t.PolicyIDs()
 	for _, rid := range t.RoleIDs() {
-		if ro, ok := s.b.roles[rid]; ok {
+		if ro, ok := s.pr.roles[rid]; ok {
 			for _, l := range ro.Policies {
 				pids = append(pids, l.ID)
 			}
@@ -1555,7 +1614,7 @@ func (s *seq) noteMissing(secret string) {
 		}
 	}
 	for _, id := range pids {
-		if _, ok := s.b.policies[id]; !ok {
+		if _, ok := s.pr.policies[id]; !ok {
 			s.negSeen[id] = true
 		}
 	}
@@ -1578,6 +1637,7 @@ func (s *seq) compile(ids []string) {
 	op := fmt.Sprintf("compile %s %s %s", mode, hx.EncSList(ids), hx.EncSList(names))
 	hit := s.caches.GetAuthorizer(pols.HashKey()) != nil
 	z, err := pols.Compile(s.caches, nil)
+	s.checkShared()
 	np, na := s.caches.VerifC08Lens()
 	pre := fmt.Sprintf("h=%s pc=%d ac=%d ", hx.EncBool(hit), np, na)
 	if s.small {
@@ -1631,11 +1691,17 @@ func (s *seq) compile(ids []string) {
 }
 
 func runSeq(run *hx.Run, r *hx.RNG, kind string) {
-	s := &seq{run: run, r: r, kind: kind, dflt: hx.Pick(r, []byte{'a', 'd', 'd'}), dc: "dc1", small: r.Chance(20),
-		docs: map[string]policy{}, modIdx: map[string]uint64{}}
+	s := &seq{run: run, r: r, kind: kind, dflt: hx.Pick(r, []byte{'a', 'd', 'd'}), dc: hx.Pick(r, []string{"dc1", "dc1", "dc2"}), small: r.Chance(20),
+		docs: map[string]policy{}, modIdx: map[string]uint64{}, pr: newPristine()}
 	s.b = &backend{dc: s.dc, tokens: map[string]*structs.ACLToken{}, policies: map[string]*structs.ACLPolicy{}, roles: map[string]*structs.ACLRole{}}
+	run.Tag(kind + ":datacenter:" + s.dc)
 	if kind == "resolve" {
 		s.b.client = r.Chance(35)
+		s.narrow = r.Chance(40)
+		if s.narrow {
+			run.Tag("resolve:gen:narrow(shared roles)")
+		}
+		s.b.cloneOut = s.b.client && r.Bool()
 		s.res = newResolver(s.b, s.dflt, s.small)
 		if s.b.client {
 			run.Tag("resolve:mode:client-rpc")
@@ -1664,7 +1730,11 @@ func runSeq(run *hx.Run, r *hx.RNG, kind string) {
 		s.putPolicy(id, o)
 	}
 	if kind == "resolve" {
-		for _, id := range roleIDs[:r.Intn(3)] {
+		nro := r.Intn(4)
+		if s.narrow {
+			nro = 2 + r.Intn(2)
+		}
+		for _, id := range roleIDs[:nro] {
 			s.putRole(id)
 		}
 		for _, sec := range secrets[:2+r.Intn(4)] {
@@ -1704,8 +1774,7 @@ func runSeq(run *hx.Run, r *hx.RNG, kind string) {
 			run.Tag(kind + ":step:policy-update")
 		case c < 86:
 			id := hx.Pick(r, polIDs)
-			delete(s.b.policies, id)
-			delete(s.docs, id)
+			s.delPolicy(id)
 			s.line("delpol "+hx.EncS(id), "ok")
 			run.Tag(kind + ":step:policy-delete")
 		case c < 94 && kind == "resolve":
@@ -1735,7 +1804,7 @@ func runSeq(run *hx.Run, r *hx.RNG, kind string) {
 func aliasWitness(run *hx.Run) {
 	for _, pfx := range []bool{false, true} {
 		s := &seq{run: run, r: run.RNG.Fork(0xA11A5), kind: "resolve", dflt: 'd', dc: "dc1",
-			docs: map[string]policy{}, modIdx: map[string]uint64{}}
+			docs: map[string]policy{}, modIdx: map[string]uint64{}, pr: newPristine()}
 		s.b = &backend{dc: s.dc, tokens: map[string]*structs.ACLToken{}, policies: map[string]*structs.ACLPolicy{}, roles: map[string]*structs.ACLRole{}}
 		s.res = newResolver(s.b, s.dflt, false)
 		s.line("reset d =dc1", "ok")
@@ -1744,7 +1813,7 @@ func aliasWitness(run *hx.Run) {
 			doc := &structs.ACLPolicy{ID: polIDs[i], Name: "p-0", Rules: render(p, 0)}
 			doc.ModifyIndex = 1
 			doc.SetHash(true)
-			s.b.policies[polIDs[i]] = doc
+			s.setPolicy(polIDs[i], doc)
 			s.docs[polIDs[i]] = p
 			s.line(fmt.Sprintf("pol %s 1 %d - %s", hx.EncS(polIDs[i]), contentTag(doc), encPolicy(p)), "ok")
 		}
@@ -1753,7 +1822,7 @@ func aliasWitness(run *hx.Run) {
 			for _, p := range pids {
 				t.Policies = append(t.Policies, structs.ACLTokenPolicyLink{ID: p})
 			}
-			s.b.tokens[secrets[i]] = t
+			s.setToken(secrets[i], t)
 			s.line(fmt.Sprintf("tok %s %s - - -", hx.EncS(secrets[i]), hx.EncSList(pids)), "ok")
 		}
 		s.resolve(secrets[0])
@@ -1769,18 +1838,18 @@ func aliasWitness(run *hx.Run) {
 func negativeWitness(run *hx.Run) {
 	for _, viaRole := range []bool{false, true} {
 		s := &seq{run: run, r: run.RNG.Fork(0x4E6), kind: "resolve", dflt: 'a', dc: "dc1",
-			docs: map[string]policy{}, modIdx: map[string]uint64{}}
+			docs: map[string]policy{}, modIdx: map[string]uint64{}, pr: newPristine()}
 		s.b = &backend{dc: s.dc, client: true, tokens: map[string]*structs.ACLToken{}, policies: map[string]*structs.ACLPolicy{}, roles: map[string]*structs.ACLRole{}}
 		s.res = newResolver(s.b, s.dflt, false)
 		s.line("reset a =dc1", "ok")
 		t := &structs.ACLToken{AccessorID: "acc-neg", SecretID: secrets[0]}
 		if viaRole {
 			t.Roles = []structs.ACLTokenRoleLink{{ID: roleIDs[0]}}
-			s.b.tokens[secrets[0]] = t
+			s.setToken(secrets[0], t)
 			s.line(fmt.Sprintf("tok %s - %s - -", hx.EncS(secrets[0]), hx.EncS(roleIDs[0])), "ok")
 		} else {
 			t.Policies = []structs.ACLTokenPolicyLink{{ID: polIDs[0]}}
-			s.b.tokens[secrets[0]] = t
+			s.setToken(secrets[0], t)
 			s.line(fmt.Sprintf("tok %s %s - - -", hx.EncS(secrets[0]), hx.EncS(polIDs[0])), "ok")
 		}
 		s.resolve(secrets[0])
@@ -1789,7 +1858,7 @@ func negativeWitness(run *hx.Run) {
 		doc := &structs.ACLPolicy{ID: polIDs[0], Name: "p-0", Rules: render(p, 0)}
 		doc.ModifyIndex = 1
 		doc.SetHash(true)
-		s.b.policies[polIDs[0]] = doc
+		s.setPolicy(polIDs[0], doc)
 		s.docs[polIDs[0]] = p
 		s.badDoc = map[string]bool{}
 		if s.negSeen[polIDs[0]] {
@@ -1797,7 +1866,7 @@ func negativeWitness(run *hx.Run) {
 		}
 		s.line(fmt.Sprintf("pol %s 1 %d - %s", hx.EncS(polIDs[0]), contentTag(doc), encPolicy(p)), "ok")
 		if viaRole {
-			s.b.roles[roleIDs[0]] = &structs.ACLRole{ID: roleIDs[0], Name: "r-1", Policies: []structs.ACLRolePolicyLink{{ID: polIDs[0]}}}
+			s.setRole(roleIDs[0], &structs.ACLRole{ID: roleIDs[0], Name: "r-1", Policies: []structs.ACLRolePolicyLink{{ID: polIDs[0]}}})
 			if s.negSeen[roleIDs[0]] {
 				s.negRecreated = "role"
 			}
